@@ -1,13 +1,201 @@
 /-
-Props/C06.lean — property theorems for C06.
+Props/C06.lean — property theorems for C06 (Copy / CopyTo produce an equal, independent copy).
+
+`copy_correct` / `copyTo_correct`: for the repaired emitter model (`GenCfg.fixed`), every well-formed type
+tree, every well-typed source whose maps have pairwise distinct keys, every argument form and — for CopyTo —
+every well-typed destination whose slices and maps are empty and whose pointers are nil, the observation
+the driver derives from the model's outcome (`copyObsOfWith`, Spec/CopyObs.lean) satisfies the driver's
+acceptance relation `cpAccepts`, i.e. `copyAccepts` of Spec/CopySpec.lean: no panic, nothing shared, source
+unchanged, DeepEqual(source, copy) answers true and the copy is structurally identical to the source
+(`eqS … = must`; for types with pointer-keyed maps, where Go compares keys by identity, `≠ mustNot`).
+The observation is the one the driver computes, except that values are normalised with `dropCaps` instead
+of `canon ∘ dropCaps` (`canon`, Driver/Parse.lean, additionally sorts map entries and is a `partial def`:
+nothing can be proved about it). `copy_correct_norm` isolates what `canon` would have to satisfy.
+
+The model of the current tree is rejected on the six known classes (`repo_not_correct_*`).
 -/
-import InspectorModel.Gen.Copy
-import InspectorModel.Gen.Reset
-import InspectorModel.Spec.CopySpec
+import InspectorModel.Proofs.CopyDeq
+import InspectorModel.Proofs.CopyDropCaps
+import InspectorModel.Spec.CopyObs
+set_option linter.unusedSimpArgs false
+set_option linter.unusedVariables false
 namespace Inspector.C06
+open Inspector.CopyPf
 
 /-- A by-value destination is refused with the must-be-pointer error before anything is written. -/
 theorem copyTo_by_value_refused (cfg : GenCfg) (n : Node) (r l : Val) :
     (match copyToM cfg n .ptr .val r l with | .mustPointer => true | _ => false) = true := rfl
+
+/-- The emitted copy code at any node (root or not), repaired emitter: it does not panic, copies no
+pointer as a pointer (sharing count 0), yields a well-typed value, DeepEqual of source and copy continues
+("equal"), and the copy is structurally identical to the source. -/
+theorem copyN_correct (n : Node) (d0 : Bool) (l r : Val) (hwf : NodeWF n = true) (hwr : WT n r = true)
+    (hwl : WT n l = true) (hd : dstOK false l = true) (hk : KeysOK false n r = true) :
+    ∃ v, copyN GenCfg.fixed n d0 l r = .ok v 0 ∧ WT n v = true ∧
+      (eqS {} n "" r v != .mustNot) = true ∧
+      (hasPtrKeyMap n = false → eqS {} n "" r v = .must ∧
+        deqM { cfg := GenCfg.fixed, ident := false } n .ptr .ptr r v = .t) := by
+  obtain ⟨v, hv, hwv, _, he⟩ := copyN_ok r n d0 l false hwf hwr hwl (dstOK_mono l hd) hk
+  have ht := he hd ""
+  refine ⟨v, hv, hwv, triOK_ne _ _ ht, ?_⟩
+  intro hp
+  rw [hp] at ht
+  have hm := triOK_false _ ht
+  refine ⟨hm, ?_⟩
+  have hc := (deq_of_must r n "" v hwr hm).1 false true ""
+  show deqM deqEnv n .ptr .ptr r v = .t
+  simp only [deqM, deqArgOf, hc]
+
+/-- Acceptance of the observation of a successful copy, for any normalisation that `eqS` does not see. -/
+theorem accepts_of_copyN (norm : Val → Val) (n : Node) (d0 : Bool) (l r : Val) (hwf : NodeWF n = true)
+    (hwr : WT n r = true) (hwl : WT n l = true) (hd : dstOK false l = true) (hk : KeysOK false n r = true)
+    (hnorm : ∀ v, WT n v = true → eqS {} n "" r (norm v) = eqS {} n "" r v) :
+    ∃ v, copyN GenCfg.fixed n d0 l r = .ok v 0 ∧
+      cpAccepts n r none (copyObsOfWith norm GenCfg.fixed n r (.ok v 0)) = true := by
+  obtain ⟨v, hv, hwv, hne, hmust⟩ := copyN_correct n d0 l r hwf hwr hwl hd hk
+  refine ⟨v, hv, ?_⟩
+  simp only [copyObsOfWith, cpAccepts, copyAccepts, hnorm v hwv]
+  by_cases hp : hasPtrKeyMap n = true
+  · simp [hp, hne]
+  · have hp' : hasPtrKeyMap n = false := by simpa using hp
+    obtain ⟨hm, hdq⟩ := hmust hp'
+    have hdq' : deqM { cfg := GenCfg.fixed, ident := GenCfg.fixed.copyPtrShared } n .ptr .ptr r v = .t := hdq
+    simp only [hp', hdq', hm, showDeqOut]
+    decide
+
+theorem dropCaps_norm (n : Node) (r : Val) (hwf : NodeWF n = true) :
+    ∀ v, WT n v = true → eqS {} n "" r (dropCaps v) = eqS {} n "" r v :=
+  fun v hv => eqS_dropCapsFuel r {} n "" v 64 (WT_keysFlat v n hwf hv)
+
+/-- C06, Copy, with the normalisation left open (`canon ∘ dropCaps` in the driver): all that is needed of
+it is that the specification's structural comparison does not see it on well-typed values. -/
+theorem copy_correct_norm (norm : Val → Val) (n : Node) (v : Val) (f : Form) (hwf : NodeWF n = true)
+    (hwt : WT n v = true) (hk : KeysOK false n v = true)
+    (hnorm : ∀ c, WT n c = true → eqS {} n "" v (norm c) = eqS {} n "" v c) :
+    (copyNilRoot f || cpAccepts n v (copyRefusal f) (copyObsOfWith norm GenCfg.fixed n v (copyM GenCfg.fixed n f v))) = true := by
+  obtain ⟨c, hc, hacc⟩ := accepts_of_copyN norm n true (zeroVal n) v hwf hwt (WT_zeroVal n hwf) (zeroVal_dstOK false n) hk hnorm
+  cases f <;> simp [copyNilRoot, rootOf, copyRefusal, copyM, copySrcOfC, copySrcOf, hc, hacc] <;> rfl
+
+/-- C06 for Copy, repaired emitter: the driver's acceptance of the model's outcome, for every argument form. -/
+theorem copy_correct (n : Node) (v : Val) (f : Form) (hwf : NodeWF n = true) (hwt : WT n v = true)
+    (hk : KeysOK false n v = true) :
+    (copyNilRoot f || cpAccepts n v (copyRefusal f) (copyObsOfWith dropCaps GenCfg.fixed n v (copyM GenCfg.fixed n f v))) = true :=
+  copy_correct_norm dropCaps n v f hwf hwt hk (dropCaps_norm n v hwf)
+
+theorem copyTo_correct_norm (norm : Val → Val) (n : Node) (src dst : Val) (fs fd : Form) (hwf : NodeWF n = true)
+    (hws : WT n src = true) (hwd : WT n dst = true) (hd : dstOK false dst = true) (hk : KeysOK false n src = true)
+    (hnorm : ∀ c, WT n c = true → eqS {} n "" src (norm c) = eqS {} n "" src c) :
+    (copyToNilRoot fs fd || cpAccepts n src (copyToRefusal fs fd)
+      (copyObsOfWith norm GenCfg.fixed n src (copyToM GenCfg.fixed n fs fd src dst))) = true := by
+  obtain ⟨c, hc, hacc⟩ := accepts_of_copyN norm n true dst src hwf hws hwd hd hk hnorm
+  cases fs <;> cases fd <;>
+    simp [copyToNilRoot, rootOf, copyToRefusal, copyToM, copySrcOfC, copySrcOf, hc, hacc] <;> rfl
+
+/-- C06 for CopyTo into an empty destination (maps and slices of length zero, pointers nil; scalars,
+strings and byte slices arbitrary), repaired emitter, every pair of argument forms. -/
+theorem copyTo_correct (n : Node) (src dst : Val) (fs fd : Form) (hwf : NodeWF n = true)
+    (hws : WT n src = true) (hwd : WT n dst = true) (hd : dstOK false dst = true) (hk : KeysOK false n src = true) :
+    (copyToNilRoot fs fd || cpAccepts n src (copyToRefusal fs fd)
+      (copyObsOfWith dropCaps GenCfg.fixed n src (copyToM GenCfg.fixed n fs fd src dst))) = true :=
+  copyTo_correct_norm dropCaps n src dst fs fd hwf hws hwd hd hk (dropCaps_norm n src hwf)
+
+/-- Refused argument forms need no hypothesis on the values at all: Copy of a foreign / untyped-nil
+argument answers "unsupported", for every type tree and value. -/
+theorem copy_refusal_correct (norm : Val → Val) (n : Node) (v : Val) (f : Form) (t : String) (hr : copyRefusal f = some t) :
+    cpAccepts n v (copyRefusal f) (copyObsOfWith norm GenCfg.fixed n v (copyM GenCfg.fixed n f v)) = true := by
+  cases f <;> simp [copyRefusal] at hr <;> subst hr <;> rfl
+
+/-- CopyTo with a refused pair of argument forms (foreign / untyped-nil source or destination: "unsupported";
+destination by value: "must be pointer") is refused as expected whatever source and destination hold. -/
+theorem copyTo_refusal_correct (norm : Val → Val) (n : Node) (src dst : Val) (fs fd : Form) (t : String)
+    (hr : copyToRefusal fs fd = some t) :
+    (copyToNilRoot fs fd || cpAccepts n src (copyToRefusal fs fd)
+      (copyObsOfWith norm GenCfg.fixed n src (copyToM GenCfg.fixed n fs fd src dst))) = true := by
+  cases fs <;> cases fd <;> simp [copyToRefusal] at hr <;> subst hr <;> rfl
+
+section NonVacuity
+def intN (name : String := "") (ptr : Bool := false) : Node := .basic { typn := "int", typu := "int", name := name, ptr := ptr }
+def strN (name : String := "") (ptr : Bool := false) : Node := .basic { typn := "string", typu := "string", name := name, ptr := ptr }
+def innerN (name : String := "") (ptr : Bool := false) : Node := .struct { typn := "Inner", name := name, ptr := ptr } [intN "A"]
+
+/-- `type T struct { A int; S *string; P *int; L []*Inner; M map[string]*Inner; Q *map[string]int; B []byte }`. -/
+def exNode : Node :=
+  .struct { typn := "T" } [
+    intN "A", strN "S" true, intN "P" true,
+    .slice { typn := "[]*Inner", name := "L" } (innerN "" true),
+    .map { typn := "map[string]*Inner", name := "M" } (strN) (innerN "" true),
+    .map { typn := "map[string]int", name := "Q", ptr := true } (strN) (intN),
+    .slice { typn := "[]byte", name := "B" } (.basic { typn := "byte", typu := "byte" })]
+
+def exVal : Val :=
+  .struct [.int 5, .ptr (.str (strBytes "s")), .ptr (.int 7),
+    .slice false [.ptr (.struct [.int 1]), .nilptr] 4,
+    .map false [.str (strBytes "k"), .str (strBytes "l")] [.ptr (.struct [.int 2]), .nilptr],
+    .ptr (.map false [] []),
+    .bytes false (strBytes "xy") 8]
+
+/-- An "empty" destination as the harness builds them: nil pointers, empty non-nil collections, arbitrary scalars. -/
+def exDst : Val :=
+  .struct [.int 99, .nilptr, .nilptr, .slice false [] 3, .map false [] [], .nilptr, .bytes false (strBytes "old") 3]
+
+example : NodeWF exNode = true ∧ WT exNode exVal = true ∧ KeysOK false exNode exVal = true ∧
+    WT exNode exDst = true ∧ dstOK false exDst = true := by decide
+/-- The repaired model's copy of `exVal` is accepted; -/
+example : cpAccepts exNode exVal none (copyObsOfWith dropCaps GenCfg.fixed exNode exVal (copyM GenCfg.fixed exNode .ptr exVal)) = true := by
+  decide
+/-- … the current tree's is not (several classes at once here: the isolated witnesses follow). -/
+example : cpAccepts exNode exVal none (copyObsOfWith dropCaps GenCfg.repo exNode exVal (copyM GenCfg.repo exNode .ptr exVal)) = false := by
+  decide
+
+/-- CopyTo into the "empty" destination `exDst` (stale scalar, string-less, `old` bytes) is accepted as well. -/
+example : cpAccepts exNode exVal none (copyObsOfWith dropCaps GenCfg.fixed exNode exVal (copyToM GenCfg.fixed exNode .ptr .ptr exVal exDst)) = true := by
+  decide
+/-- The theorems instantiated. -/
+example : cpAccepts exNode exVal none (copyObsOfWith dropCaps GenCfg.fixed exNode exVal (copyM GenCfg.fixed exNode .val exVal)) = true := by
+  simpa [copyNilRoot, rootOf, copyRefusal] using copy_correct exNode exVal .val (by decide) (by decide) (by decide)
+
+def accepted (cfg : GenCfg) (n : Node) (v : Val) : Bool :=
+  cpAccepts n v none (copyObsOfWith dropCaps cfg n v (copyM cfg n .ptr v))
+
+/-- `copy-root-slice-lost`: `type L []int`; Copy of `L{1}` returns an empty slice. -/
+theorem repo_not_correct_root_slice_lost :
+    accepted GenCfg.repo (.slice { typn := "L" } intN) (.slice false [.int 1] 1) = false ∧
+    accepted { GenCfg.repo with copyRootSliceLost := false } (.slice { typn := "L" } intN) (.slice false [.int 1] 1) = true := by
+  decide
+
+/-- `copy-root-map-panics`: `type M map[string]int`; Copy of a non-empty `M` stores into a nil map. -/
+theorem repo_not_correct_root_map_panics :
+    accepted GenCfg.repo (.map { typn := "M" } strN intN) (.map false [.str (strBytes "a")] [.int 1]) = false ∧
+    accepted { GenCfg.repo with copyRootMapPanics := false } (.map { typn := "M" } strN intN) (.map false [.str (strBytes "a")] [.int 1]) = true := by
+  decide
+
+/-- `copy-ptr-shared`: `struct { P *int }`; the copy's `P` is the source's pointer. -/
+theorem repo_not_correct_ptr_shared :
+    accepted GenCfg.repo (.struct { typn := "T" } [intN "P" true]) (.struct [.ptr (.int 1)]) = false ∧
+    accepted { GenCfg.repo with copyPtrShared := false } (.struct { typn := "T" } [intN "P" true]) (.struct [.ptr (.int 1)]) = true := by
+  decide
+
+/-- `copy-nil-elem-panics`: `struct { L []*Inner }` with a nil element. -/
+theorem repo_not_correct_nil_elem_panics :
+    accepted GenCfg.repo (.struct { typn := "T" } [.slice { typn := "[]*Inner", name := "L" } (innerN "" true)])
+      (.struct [.slice false [.nilptr] 1]) = false ∧
+    accepted { GenCfg.repo with copyNilElemPanics := false } (.struct { typn := "T" } [.slice { typn := "[]*Inner", name := "L" } (innerN "" true)])
+      (.struct [.slice false [.nilptr] 1]) = true := by
+  decide
+
+/-- `copy-nil-dest-panics`: `struct { S *string }` with `S` set: written through the copy's nil `S`. -/
+theorem repo_not_correct_nil_dest_panics :
+    accepted GenCfg.repo (.struct { typn := "T" } [strN "S" true]) (.struct [.ptr (.str (strBytes "a"))]) = false ∧
+    accepted { GenCfg.repo with copyNilDestPanics := false } (.struct { typn := "T" } [strN "S" true]) (.struct [.ptr (.str (strBytes "a"))]) = true := by
+  decide
+
+/-- `copy-empty-ptr-coll-dropped`: `struct { Q *map[string]int }` with `Q` pointing to an empty map: the copy's `Q` is nil. -/
+theorem repo_not_correct_empty_ptr_coll_dropped :
+    accepted GenCfg.repo (.struct { typn := "T" } [.map { typn := "map[string]int", name := "Q", ptr := true } strN intN])
+      (.struct [.ptr (.map false [] [])]) = false ∧
+    accepted { GenCfg.repo with copyEmptyPtrCollDropped := false } (.struct { typn := "T" } [.map { typn := "map[string]int", name := "Q", ptr := true } strN intN])
+      (.struct [.ptr (.map false [] [])]) = true := by
+  decide
+end NonVacuity
 
 end Inspector.C06
